@@ -435,7 +435,7 @@ def gen_q(rng, n):
     return Exe(cmds, "random Q")
 
 
-def gen_e(rng, n):
+def gen_e(rng, n, big=False):
     pcr = rng.chance(1, 2)
     pcrint = rng.choice([270000, 1080000, 2700000]) if pcr else 0
     cmds = ["mode E pid=%d sid=%d cc=%d pcrint=%d hdr=%d" % (
@@ -450,6 +450,9 @@ def gen_e(rng, n):
             ptsf, dtsf, pts, dts = rand_stamps27(rng)
         size = rng.choice([1, 150, 157, 163, 165, 166, 169, 170, 174, 175, 176, 184, 349, 350, 360, 540]) \
             if rng.chance(2, 3) else 1 + rng.below(600)
+        if big and rng.chance(1, 2):
+            # around the point where PES_packet_length (payload + header - 6) no longer fits in 16 bits
+            size = 65510 + rng.below(30)
         cmds.append("au n=%d pay=%d ptsf=%d pts=%d dtsf=%d dts=%d rap=%d disc=%d" % (
             size, 1 + rng.below(1000), ptsf, pts, dtsf, dts, b(rng.chance(1, 3)), b(rng.chance(1, 6))))
         if rng.chance(3, 4):
@@ -912,6 +915,7 @@ def run(ctx):
             exes += [gen_corrupt_p(rng, 30) for _ in range(30 * k)]
             exes += [gen_q(rng, 6 + rng.below(10)) for _ in range(30 * k)]
             exes += [gen_e(rng, 4 + rng.below(8)) for _ in range(50 * k)]
+            exes += [gen_e(rng, 2 + rng.below(3), big=True) for _ in range(10 * k)]
             execute(ctx, side["bin"], exes, jobs=6)
             side["exes"] = exes
             side["suspects"] = validate_pool(ctx, exes, "cs")
